@@ -179,6 +179,16 @@ class LoopBodyEnd(Frame):
         self.carried, self.scope = carried, scope
 
 
+class CallReturn(Frame):
+    """bottom of an inlined module-level helper function: its `return v` becomes `targets = v` in the caller"""
+
+    def __init__(self, targets, scope, callee_scope):
+        self.targets, self.scope, self.callee_scope = targets, scope, callee_scope
+
+    def shape(self):
+        return ("CallReturn", self.scope, self.callee_scope, tuple(ast.dump(t) for t in self.targets))
+
+
 class WithExit(Frame):
     """body of `async with <generator cm>`: `gstack` is the generator's continuation at its `yield`"""
 
@@ -253,8 +263,11 @@ class Executor:
 
     BUDGET = 4000
 
-    def __init__(self, dom, fn, params, gens=None, ident="f"):
+    def __init__(self, dom, fn, params, gens=None, ident="f", helpers=None):
         self.dom, self.fn, self.ident = dom, fn, ident
+        self.helpers = helpers or {}    # name -> FunctionDef of module-level synchronous helpers (inlined)
+        self.methods = {}               # name -> FunctionDef of private sync methods of the same class, inlined
+                                        # when called as `self.name(...)` (set by the unit)
         self.params = params            # python arg name -> Val
         self.gens = gens or {}          # name -> FunctionDef of generator context managers that may be inlined
         self.points = {}                # shape key -> Point
@@ -264,6 +277,7 @@ class Executor:
         self.steps = 0
         self.binding_order = {}         # (scope, name) -> first-binding index
         self.static_binds = {}          # every static value bound in the function's own scope (for closures)
+        self.synth = {}                 # synthesised statements (stable identity: they occur in frame shapes)
 
     # ---------------------------------------------------------------- small helpers
     def tick(self):
@@ -433,6 +447,17 @@ class Executor:
                 return R(NORMAL)
             raise Unsupported(f"{self.ident}: assert whose condition is not statically true: {ast.unparse(s.test)}")
         if isinstance(s, ast.Return):
+            if isinstance(s.value, ast.Call):
+                # `return f(x)` is `tmp = f(x); return tmp` (the call may have effects, raise, or be inlined)
+                tmp = ast.Name(id="return value", ctx=ast.Store())
+                ret = ast.Return(value=ast.Name(id="return value", ctx=ast.Load()))
+                ast.copy_location(tmp, s)
+                ast.copy_location(ret, s)
+                ast.copy_location(ret.value, s)
+                key = ("ret", id(s))
+                if key not in self.synth:
+                    self.synth[key] = ret
+                return self.exec_assign([tmp], s.value, stack + [Seq([self.synth[key]], cur)], scopes, cur, st, ind)
             v = Const(None) if s.value is None else self.ev_call_pure(s.value, scopes, cur, st)
             return R(("return", v))
         if isinstance(s, ast.Break):
@@ -513,6 +538,15 @@ class Executor:
             if value.value is not None:
                 raise Unsupported(f"{self.ident}: yield of a value")
             return self.do_yield(value, stack, scopes, cur, st, ind)
+        if isinstance(value, ast.Call) and isinstance(value.func, ast.Name) and value.func.id in self.helpers \
+                and value.func.id not in scopes[cur]:
+            return self.inline_call(self.helpers[value.func.id], value, targets, stack, scopes, cur, st, ind)
+        if isinstance(value, ast.Call) and isinstance(value.func, ast.Attribute) \
+                and isinstance(value.func.value, ast.Name) and value.func.attr in self.methods:
+            base = self.lookup(scopes, cur, value.func.value.id)
+            if isinstance(base, Ent) and base.kind == self.dom.self_kind:
+                return self.inline_call(self.methods[value.func.attr], value, targets, stack, scopes, cur, st, ind,
+                                        bound_self=base)
         if not isinstance(value, ast.Call):
             v = self.ev(value, scopes, cur, st)
             sc, pre, st2 = self.dom.assign_eff(self, scopes, cur, targets, v, st, ind)
@@ -542,6 +576,30 @@ class Executor:
                 out += f"{ind}| {pat} =>\n{pre}" + self.resume(stack, outcome, scopes, cur, st2, ind + "  ")
             return out
         raise Unsupported(f"{self.ident}: call result {r[0]}")
+
+    def inline_call(self, g, call, targets, stack, scopes, cur, st, ind, bound_self=None):
+        """`targets = g(args)` for a module-level synchronous helper `g`: its body is executed in a scope of its
+        own with the parameters bound to the (already evaluated) arguments; `return v` assigns `v` to the
+        targets and goes on in the caller, an exception propagates into the caller's handlers"""
+        if call.keywords or g.args.kwonlyargs or g.args.vararg or g.args.kwarg or g.args.defaults or g.decorator_list:
+            raise Unsupported(f"{self.ident}: call of helper {g.name} with keywords/defaults/decorators")
+        if any(isinstance(n, (ast.Await, ast.Yield, ast.YieldFrom)) for b in g.body for n in ast.walk(b)):
+            raise Unsupported(f"{self.ident}: helper {g.name} suspends")
+        args = [self.ev_call_pure(a, scopes, cur, st) for a in call.args]
+        if bound_self is not None:
+            args = [bound_self] + args
+        names = [a.arg for a in g.args.args]
+        if len(names) != len(args):
+            raise Unsupported(f"{self.ident}: arguments of {g.name}")
+        depth = sum(1 for f in stack if isinstance(f, CallReturn))
+        if depth > 8:
+            raise Unsupported(f"{self.ident}: helper calls nested too deeply (recursion?)")
+        callee = f"{g.name}@{call.lineno}.{depth}"
+        sc = dict(scopes)
+        sc[callee] = {}
+        for n, v in zip(names, args):
+            sc = self.bind(sc, callee, n, v)
+        return self.run_stmts(strip_doc(g.body), stack + [CallReturn(targets, cur, callee)], sc, callee, st, ind)
 
     def exec_if(self, test, body, orelse, stack, scopes, cur, st, ind):
         # `if not X: A else: B` is translated as `if X: B else: A`
@@ -715,6 +773,15 @@ class Executor:
             if kind == "break":
                 return f"{ind}.brk ({vals})\n"
             raise Unsupported(f"{self.ident}: {kind} leaves a for loop over a list")
+        if isinstance(f, CallReturn):
+            sc = {k: v for k, v in scopes.items() if k != f.callee_scope}
+            if kind in ("normal", "return"):
+                val = o[1] if kind == "return" else Const(None)
+                sc2, pre, st2 = self.dom.assign_eff(self, sc, f.scope, f.targets, val, st, ind)
+                return pre + self.resume(rest, NORMAL, sc2, f.scope, st2, ind)
+            if kind == "raise":
+                return self.resume(rest, o, sc, f.scope, st, ind)
+            raise Unsupported(f"{self.ident}: {kind} leaves a helper function")
         if isinstance(f, WithExit):
             # __aexit__: resume the generator at its yield — normally, or by throwing the exception in
             gst = list(f.gstack)
